@@ -52,13 +52,31 @@ Definition go_cvt_i32 (a : Z) : Z :=
   else u32 (f32_trunc a).
 Definition x_vop1_f (op : Z) : option vdesc :=
   match op with
+  | 4 => Some (mkV 1 0 0 0 2 CNone MNone (fun a _ _ _ => val (f64_of_Z (s32 a))))     (* Float64bits(float64(int32(src0))) *)
+  | 15 => Some (mkV 1 2 0 0 0 CNone MNone (fun a _ _ _ => val (f32_of_f64 a)))        (* float32(Float64frombits(src)) *)
+  | 16 => Some (mkV 1 0 0 0 2 CNone MNone (fun a _ _ _ => val (f64_of_f32 a)))        (* float64(Float32frombits(uint32(src))) *)
   | 5 => Some (mkV 1 0 0 0 0 CNone MNone (fun a _ _ _ => val (f32_of_Z (s32 a))))
   | 6 => Some (mkV 1 0 0 0 0 CNone MNone (fun a _ _ _ => val (f32_of_Z (u32 a))))
   | 7 => Some (mkV 1 0 0 0 0 CNone MNone (fun a _ _ _ => val (go_cvt_u32 a)))
   | 8 => Some (mkV 1 0 0 0 0 CNone MNone (fun a _ _ _ => val (go_cvt_i32 a)))
+  | 28 => Some (mkV 1 0 0 0 0 CNone MNone (fun a _ _ _ => val (f32_truncf a)))   (* float32(math.Trunc(float64(src))) *)
+  | 30 => Some (mkV 1 0 0 0 0 CNone MNone (fun a _ _ _ => val (f32_rndne a)))   (* float32(math.RoundToEven(float64(src))) *)
   | _ => None
   end.
-
+(** CDNA3 only: v_cvt_f64_u32.  The decode table gives the opcode DSTWidth 32, so
+    WriteOperand stores only the low dword of the binary64 result. *)
+Definition c_vop1_f (op : Z) : option vdesc :=
+  match op with
+  | 22 => Some (mkV 1 0 0 0 0 CNone MNone (fun a _ _ _ => val (f64_of_Z (u32 a))))
+  | _ => x_vop1_f op
+  end.
+(** binary64 arithmetic: src0 + src1, src0 * src1 on the float64 images (abs/neg = 0) *)
+Definition x_vop3a_f64 (op : Z) : option vdesc :=
+  match op with
+  | 640 => Some (mkV 2 2 2 0 2 CNone MNone (fun a b _ _ => val (f64_add a b)))
+  | 641 => Some (mkV 2 2 2 0 2 CNone MNone (fun a b _ _ => val (f64_mul a b)))
+  | _ => None
+  end.
 
 Definition gf_vop2 (op : Z) : option vdesc :=
   match op with
@@ -87,6 +105,7 @@ Definition gf_vop3a (op : Z) : option vdesc :=
   | 65 | 68 | 77 | 78 => x_fcmp MDst op
   | 258 => Some (d2 (fun a b => val (f32_sub a b)))
   | 449 => Some (d3 (fun a b c => val (f32_add (f32_mul a b) c)))
+  | 640 | 641 => x_vop3a_f64 op
   | _ => None
   end.
 Definition cf_vop3a (op : Z) : option vdesc :=
@@ -95,13 +114,14 @@ Definition cf_vop3a (op : Z) : option vdesc :=
   | 258 => Some (d2 (fun a b => val (f32_sub a b)))
   | 261 => Some (d2 (fun a b => val (f32_mul a b)))
   | 449 | 459 => Some (d3 (fun a b c => val (f32_add (f32_mul a b) c)))
+  | 640 | 641 => x_vop3a_f64 op
   | _ => None
   end.
 
 Definition vdesc_f (a : arch) (f : format) (op : Z) : option vdesc :=
   match a, f with
   | GCN3, F_VOP2 => gf_vop2 op | CDNA3, F_VOP2 => cf_vop2 op
-  | _, F_VOP1 => x_vop1_f op
+  | GCN3, F_VOP1 => x_vop1_f op | CDNA3, F_VOP1 => c_vop1_f op
   | CDNA3, F_VOPC => if (65 <=? op) && (op <=? 70) || (op =? 75) || (op =? 78) then x_fcmp MVcc op else None
   | GCN3, F_VOPC => if (65 <=? op) && (op <=? 78) then x_fcmp MVcc op else None
   | GCN3, F_VOP3A => gf_vop3a op | CDNA3, F_VOP3A => cf_vop3a op
